@@ -8,6 +8,6 @@ Extraction Language OCaml.
 Extraction "../ocaml/c13/model.ml"
   Z.add Z.mul Z.sub Z.div_eucl Z.compare Z.of_nat Z.to_nat
   init step trace run ops_okb enc_eb dec_eb dec_ebs eb_payload rec_bytes field_of extras_size
-  write_state read_state std_names edim_okb fmt_eqv init_ex op_okb
+  write_state read_state std_names rec_names sub_names std_dim_names dim_names edim_okb fmt_eqv init_ex op_okb
   select wstep wtrace wrun wops_okb
   cstep ctrace crun cops_okb.
